@@ -24,9 +24,30 @@ GUARD = "PIQUASSO_VERIF"
 _loaded = None
 
 
+def _python_sources_digest(repo: Path) -> str:
+    """Digest of every Python source of the package.
+
+    numba's on-disk cache is keyed by the file of the jitted function only: an edit of a
+    jitted *callee* in another file does not invalidate the cached callers, which would
+    make a check run against stale compiled code.  The cache directory is therefore
+    keyed by the content of the whole package."""
+    import hashlib
+
+    h = hashlib.sha256()
+    for p in sorted((repo / "piquasso").rglob("*.py")):
+        h.update(str(p.relative_to(repo)).encode())
+        h.update(p.read_bytes())
+    return h.hexdigest()[:16]
+
+
 def prepare_env(threads: int | None = 1) -> None:
     """Environment that must be set before numba / OpenMP / piquasso are imported."""
-    os.environ.setdefault("NUMBA_CACHE_DIR", str(VERIF / ".build" / "numba"))
+    if "NUMBA_CACHE_DIR" not in os.environ:
+        root = VERIF / ".build" / "numba"
+        cache = root / _python_sources_digest(native_build.repo_root())
+        cache.mkdir(parents=True, exist_ok=True)
+        os.environ["NUMBA_CACHE_DIR"] = str(cache)
+        _prune_numba(root, cache)
     os.environ.setdefault(GUARD, "1")
     os.environ.setdefault("TF_CPP_MIN_LOG_LEVEL", "3")
     os.environ.setdefault("JAX_PLATFORMS", "cpu")
@@ -35,6 +56,25 @@ def prepare_env(threads: int | None = 1) -> None:
         for k in ("OMP_NUM_THREADS", "NUMBA_NUM_THREADS", "OPENBLAS_NUM_THREADS",
                   "MKL_NUM_THREADS"):
             os.environ.setdefault(k, str(threads))
+
+
+def _prune_numba(root: Path, keep: Path) -> None:
+    import shutil
+    import time
+
+    try:
+        dirs = sorted((d for d in root.iterdir() if d.is_dir()), key=lambda d: d.stat().st_mtime)
+    except FileNotFoundError:
+        return
+    for d in dirs[:-4]:
+        if d != keep and time.time() - d.stat().st_mtime > 6 * 3600:
+            shutil.rmtree(d, ignore_errors=True)
+    for f in root.iterdir():  # legacy flat cache files
+        if f.is_file():
+            try:
+                f.unlink()
+            except OSError:
+                pass
 
 
 def repo_root() -> Path:
